@@ -174,3 +174,11 @@ func (o *Outcome) PanicSite() string {
 	}
 	return strings.TrimPrefix(first, "github.com/specterops/dawgs/")
 }
+
+// Mapper is a kind mapper private to one goroutine (InMemoryKindMapper.AssertKinds mutates it).
+type Mapper struct {
+	KindMapper pgsql.KindMapper
+}
+
+// NewMapper returns a fresh mapper that knows every corpus and enumeration kind.
+func NewMapper() *Mapper { return &Mapper{KindMapper: cyq.KindMapper()} }
